@@ -55,6 +55,26 @@ NOTES = {
  "C13-2": dict(change="same edit as the round-1 C13 seed (MkdirTemp prefix 'tmp-snapshot-')", needs="as C13", as_delivered="caught by the C13 check (SNAP-PICK)", strengthened="none needed"),
  "C15-2": dict(change="InstallSnapshot (matching-entry branch): boundary stores moved after the wait for lastApplied, re-check changed to >=", needs="follower whose log holds the snapshot's last entry but lastApplied below it; the re-sent tail chunk restarts the transfer for ever",
              as_delivered="caught by IS-HANDLER (IS-COMPLETE: the handler can park/return after publishing the snapshot without having moved the boundary), but that rule was wired to C10/C11 only — the C15 check stayed silent", strengthened="IS-HANDLER added to C15's rules (known finding D10 extended to C15)"),
+ "C03-2": dict(change="sendAppendEntries credits the follower with r.log.LastIndex() read after the RPC instead of what the request carried", needs="a second submission while an AppendEntries is in flight; the RPCs that carry the new entry are lost; leader goes away",
+             as_delivered="caught by SENDER (MATCH-PROV: matchIndex must be request.PrevLogIndex + len(entries) of the request sent), but SENDER was not wired to C03 — the C03 check stayed silent", strengthened="COMMIT-LEADER, SENDER and QUORUM-SHAPE added to C03's rules (a future is answered for a committed entry, so the commit rule is a necessary condition of a truthful acknowledgement)"),
+ "C04-2": dict(change="same edit as the round-1 C01/C04 seeds (becomeLeader no longer resets matchIndex), found independently a third time", needs="as C04", as_delivered="caught by the C04 check (SENDER)", strengthened="none needed"),
+ "C06-2": dict(change="same edit as C01-2 (sender caps the entries of a request, LeaderCommit stays full), found independently", needs="as C01-2", as_delivered="as C01-2: reported by SENDER/SNAP-FALLBACK for the wrong reason", strengthened="as C01-2 (SEND-TO-END decided on the loop exit; COMMIT-FOLLOWER is in C06's rules)"),
+ "C07-2": dict(change="same edit as the round-1 C01/C04 seeds (matchIndex reset removed), a fourth time", needs="five voters, same node leads twice without restart, tail overwritten in between",
+             as_delivered="caught by SENDER, but SENDER was not wired to C07 — the C07 check stayed silent", strengthened="COMMIT-LEADER, SENDER and QUORUM-SHAPE added to C07's rules (leader completeness is stated in terms of the commit index)"),
+ "C08-2": dict(change="sendAppendEntries compares response.Term with request.Term instead of currentTerm (wrong variable after the unlock window)", needs="an AppendEntries in flight while the sender loses and regains leadership in a later term; delayed reply with an intermediate term",
+             as_delivered="caught by the C08 check (TERM-VOTE/TERM-MONO: currentTerm can decrease in sendAppendEntries > becomeFollower)", strengthened="none needed"),
+ "C11-2": dict(change="same edit as the round-1 C11 seed (DiscardEntries with the leader's term)", needs="as C11", as_delivered="caught by the C11 check (IS-HANDLER/IS-TRIM)", strengthened="none needed"),
+ "C14-2": dict(change="takeSnapshot: Close (publish) moved after Log.Compact, disguised as 'discard a stale snapshot instead of publishing it'", needs="kill immediately after Log.Compact", as_delivered="caught by the C14 check (SNAP-ORDER)", strengthened="none needed"),
+ "C16-2": dict(change="becomeFollower returns early, before state := Follower, when term and leaderID are already current; the AppendEntries handler sets leaderID just before demoting a same-term candidate", needs="contested election (node still Candidate when the winner's first AppendEntries arrives), later isolation > election timeout, rejoin",
+             as_delivered="MISSED by every rule: nothing said that a (pre)candidate which accepts the leader of its term must become a follower", strengthened="new rule HANDLER-DEMOTE (C16, C02): no error-free non-stale reply of AppendEntries, and no progress of InstallSnapshot past its term checks, in the Candidate/PreCandidate role"),
+ "C17-2": dict(change="AppendEntries refreshes lastContact only when it accepts the request; the leader counts rejecting replies towards its lease quorum all the same (two sites, each fine alone)", needs="returning lagging follower rejects the first heartbeat (renews the leader's lease) and immediately votes for another node; lease read on the old leader",
+             as_delivered="MISSED by every rule: the receiver-side half of the lease contract was not encoded", strengthened="new rule CONTACT-REFRESH (C17, C16): every error-free reply of AppendEntries that does not signal a larger term is returned after lastContact := time.Now()"),
+ "C18-2": dict(change="Bootstrap: the two 'already has state' checks merged with the log check first (r.log.LastIndex() > 0 || r.configuration != nil)", needs="NewRaft; Start; Stop; Bootstrap (the stopped node's log is closed: index out of range)",
+             as_delivered="caught by the C18 check (LIFECYCLE names the call sequence NewRaft; Start; Stop; Bootstrap and the use of the closed log)", strengthened="none needed"),
+ "C19-2": dict(change="Compact computes entry.Offset arithmetically (entry.Offset -= base) instead of asking the file", needs="compaction with surviving entries, later Truncate at a surviving entry, restart",
+             as_delivered="caught by the C19 check (RECORD-OFFSET, the rule added after the round-1 C19 seed)", strengthened="none needed"),
+ "C20-2": dict(change="makeProtoEntries copies entry.Offset into the wire entry (same class as the round-1 C20 seed, different helper)", needs="AppendEntries in flight while the node compacts; visible only under -race",
+             as_delivered="caught by the C20 check (OFFSET-OWNER, the rule added after the round-1 C20 seed)", strengthened="none needed"),
  "C20": dict(change="shared (*LogEntry).toProto helper makes the wire converter read entry.Offset (unlocked) while Compact rewrites it", needs="AppendEntries request in flight (converted with the mutex released) while the node compacts its log; visible only under -race",
              as_delivered="MISSED: LOCKSET guards node state, not the fields of shared log entries (and the tables corpus had filed 'send Offset both ways' as benign)", strengthened="OFFSET-OWNER (C20): LogEntry.Offset may be accessed only by code that runs inside the bundled log; the benign case was reclassified as a must-fire mutant"),
 }
